@@ -154,4 +154,4 @@ def run(ctx):
     from ..common import run_systematic
 
     run_systematic(ctx, directed_cases(ctx), guarded(ctx, chk), keep_one_in=1, label="directed-template-sessions", presharded=True)
-    run_cases(ctx, case_strategy(names), guarded(ctx, chk), ctx.budget(48, 1600))
+    run_cases(ctx, case_strategy(names), guarded(ctx, chk), ctx.budget(48, 384))
